@@ -77,24 +77,11 @@ def seqWalkLoop (ds : Array Nat) : Nat → List Nat → List Nat → List Nat
 def idxsSeq (ds : Array Nat) (pits : List Nat) : List Nat :=
   seqWalkLoop ds ds.size pits []
 
-/-! ### `fillnodata_upstream`, `fillnodata_downstream` -/
+/-! ### `fillnodata_upstream` (`fillnodata_downstream` is modelled in Model/C14.lean) -/
 
 
 def fillnodataUpstream (ds : Array Nat) (seq : List Nat) (data : Array Int) (nodata : Int) : Array Int :=
   sweepDown ds (gFillNd nodata) seq data
-
-/-- `how`: 0 = max, 1 = min, 2 = sum. State is `data_out`; `data` is read-only. -/
-def fillnodataDownstream (ds : Array Nat) (seq : List Nat) (data : Array Int) (nodata : Int)
-    (how : Nat) : Array Int :=
-  seq.foldr (fun idx0 out =>
-    let d := ds[idx0]!
-    if d = idx0 then out
-    else if data[d]! = nodata ∧ out[idx0]! ≠ nodata then
-      if out[d]! = nodata then out.setIfInBounds d out[idx0]!
-      else if how = 0 then out.setIfInBounds d (max out[idx0]! out[d]!)
-      else if how = 1 then out.setIfInBounds d (min out[idx0]! out[d]!)
-      else out.setIfInBounds d (out[d]! + out[idx0]!)
-    else out) data
 
 /-! ### `main_upstream` -/
 
@@ -148,7 +135,7 @@ def windowDown (ds : Array Nat) (strord : Option (Array Int)) (strord0 : Int) :
     let d := ds[idx0]!
     let higher := match strord with
       | none => false
-      | some s => decide (s[d]! > strord0)
+      | some s => d < ds.size && decide (s[d]! > strord0)
     if d = idx0 ∨ d = ds.size ∨ higher = true then acc.reverse
     else windowDown ds strord strord0 k d (d :: acc)
 
